@@ -333,7 +333,7 @@ Definition add_broadcast (data : bytes) : M bool :=
   match data with
   | [] => fail EMalformedPacket
   | _ =>
-      if max_packet_size (cfg f) <? len data then fail EDataTooBig else
+      if (max_packet_size (cfg f) <? len data) || (u16_max <? len data) then fail EDataTooBig else
       let '(h', r) := h_recv (hst f) data None in
       modify (fun f => set_hst f h') ;;;
       match r with
@@ -504,7 +504,10 @@ Definition set_config (c : config) : M unit :=
      || (negb (is_some (periodic_announce_down old)) && is_some (periodic_announce_down c))
      || (negb (is_some (periodic_gossip old)) && is_some (periodic_gossip c))
   then fail EInvalidConfig
-  else modify (fun f => set_cfg f c).
+  else
+    when (negb (max_packet_size old =? max_packet_size c))
+         (modify (fun f => set_send_cap f (max_packet_size c))) ;;;
+    modify (fun f => set_cfg f c).
 
 Definition reuse_down_identity : M unit :=
   f <- get ;;
